@@ -3,7 +3,7 @@
 //! borrow the parent and close on Drop).  The real crates of the working tree are linked as they are; documents are
 //! enumerated from an independent model, handed to the real printer as nitrogql_ast values, and the emitted JSON is read
 //! back by an independent reader of the graphql-js AST shape (`from_json`) and compared with [X] ++ closure_spreads(X).
-//! usage: jsonrt <quick|thorough> [--one <index>]
+//! usage: jsonrt <quick|thorough> [--one <index>]   (this library: model, real-AST construction, oracle, enumeration)
 use std::collections::{BTreeMap, BTreeSet};
 
 use nitrogql_ast::{
@@ -25,7 +25,7 @@ use sourcemap_writer::JustWriter;
 
 // ------------------------------------------------------------------------------------------------ model
 #[derive(Clone, Debug, PartialEq, Eq, PartialOrd, Ord)]
-enum MValue {
+pub enum MValue {
     Var(String),
     Bool(bool),
     Int(String),
@@ -37,46 +37,46 @@ enum MValue {
     Obj(Vec<(String, MValue)>),
 }
 #[derive(Clone, Debug, PartialEq, Eq, PartialOrd, Ord)]
-enum MType {
+pub enum MType {
     Named(String),
     List(Box<MType>),
     NonNull(Box<MType>),
 }
 #[derive(Clone, Debug, PartialEq, Eq, PartialOrd, Ord)]
-struct MDir {
-    name: String,
-    args: Vec<(String, MValue)>,
+pub struct MDir {
+    pub name: String,
+    pub args: Vec<(String, MValue)>,
 }
 #[derive(Clone, Debug, PartialEq, Eq, PartialOrd, Ord)]
-struct MVarDef {
-    name: String,
-    ty: MType,
-    default: Option<MValue>,
-    dirs: Vec<MDir>,
+pub struct MVarDef {
+    pub name: String,
+    pub ty: MType,
+    pub default: Option<MValue>,
+    pub dirs: Vec<MDir>,
 }
 #[derive(Clone, Debug, PartialEq, Eq, PartialOrd, Ord)]
-enum MSel {
+pub enum MSel {
     Field { alias: Option<String>, name: String, args: Vec<(String, MValue)>, dirs: Vec<MDir>, sel: Option<Vec<MSel>> },
     Spread { name: String, dirs: Vec<MDir> },
     Inline { cond: Option<String>, dirs: Vec<MDir>, sel: Vec<MSel> },
 }
 #[derive(Clone, Debug, PartialEq, Eq, PartialOrd, Ord)]
-enum MDef {
+pub enum MDef {
     Op { ty: &'static str, name: Option<String>, vars: Vec<MVarDef>, dirs: Vec<MDir>, sel: Vec<MSel> },
     Frag { name: String, cond: String, dirs: Vec<MDir>, sel: Vec<MSel> },
 }
 
 // ------------------------------------------------------------------------------------------------ model -> real AST
-fn leak(s: &str) -> &'static str {
+pub fn leak(s: &str) -> &'static str {
     Box::leak(s.to_string().into_boxed_str())
 }
-fn pos() -> Pos {
+pub fn pos() -> Pos {
     Pos { line: 0, column: 0, file: 0, builtin: false }
 }
-fn ident(s: &str) -> Ident<'static> {
+pub fn ident(s: &str) -> Ident<'static> {
     Ident { name: leak(s), position: pos() }
 }
-fn ast_value(v: &MValue) -> Value<'static> {
+pub fn ast_value(v: &MValue) -> Value<'static> {
     match v {
         MValue::Var(n) => Value::Variable(Variable { name: leak(n), position: pos() }),
         MValue::Bool(b) => Value::BooleanValue(BooleanValue { position: pos(), keyword: if *b { "true" } else { "false" }, value: *b }),
@@ -89,27 +89,27 @@ fn ast_value(v: &MValue) -> Value<'static> {
         MValue::Obj(f) => Value::ObjectValue(ObjectValue { position: pos(), fields: f.iter().map(|(k, v)| (ident(k), ast_value(v))).collect() }),
     }
 }
-fn ast_type(t: &MType) -> Type<'static> {
+pub fn ast_type(t: &MType) -> Type<'static> {
     match t {
         MType::Named(n) => Type::Named(NamedType { name: ident(n) }),
         MType::List(i) => Type::List(Box::new(ListType { position: pos(), r#type: ast_type(i) })),
         MType::NonNull(i) => Type::NonNull(Box::new(NonNullType { r#type: ast_type(i) })),
     }
 }
-fn ast_args(a: &[(String, MValue)]) -> Option<Arguments<'static>> {
+pub fn ast_args(a: &[(String, MValue)]) -> Option<Arguments<'static>> {
     if a.is_empty() {
         None
     } else {
         Some(Arguments { position: pos(), arguments: a.iter().map(|(k, v)| (ident(k), ast_value(v))).collect() })
     }
 }
-fn ast_dirs(d: &[MDir]) -> Vec<Directive<'static>> {
+pub fn ast_dirs(d: &[MDir]) -> Vec<Directive<'static>> {
     d.iter().map(|d| Directive { position: pos(), name: ident(&d.name), arguments: ast_args(&d.args) }).collect()
 }
-fn ast_selset(s: &[MSel]) -> SelectionSet<'static> {
+pub fn ast_selset(s: &[MSel]) -> SelectionSet<'static> {
     SelectionSet { position: pos(), selections: s.iter().map(ast_sel).collect() }
 }
-fn ast_sel(s: &MSel) -> Selection<'static> {
+pub fn ast_sel(s: &MSel) -> Selection<'static> {
     match s {
         MSel::Field { alias, name, args, dirs, sel } => Selection::Field(Field {
             alias: alias.as_ref().map(|a| ident(a)),
@@ -127,7 +127,7 @@ fn ast_sel(s: &MSel) -> Selection<'static> {
         }),
     }
 }
-fn ast_def(d: &MDef) -> ExecutableDefinition<'static> {
+pub fn ast_def(d: &MDef) -> ExecutableDefinition<'static> {
     match d {
         MDef::Op { ty, name, vars, dirs, sel } => ExecutableDefinition::OperationDefinition(OperationDefinition {
             position: pos(),
@@ -168,8 +168,8 @@ fn ast_def(d: &MDef) -> ExecutableDefinition<'static> {
 }
 
 // ------------------------------------------------------------------------------------------------ independent JSON reader
-type R<T> = Result<T, String>;
-fn obj<'a>(j: &'a J, kind: &str, required: &[&str], optional: &[&str]) -> R<&'a serde_json::Map<String, J>> {
+pub type R<T> = Result<T, String>;
+pub fn obj<'a>(j: &'a J, kind: &str, required: &[&str], optional: &[&str]) -> R<&'a serde_json::Map<String, J>> {
     let o = j.as_object().ok_or_else(|| format!("{kind}: not an object: {j}"))?;
     let k = o.get("kind").and_then(|k| k.as_str()).ok_or_else(|| format!("{kind}: no kind in {j}"))?;
     if k != kind {
@@ -187,20 +187,20 @@ fn obj<'a>(j: &'a J, kind: &str, required: &[&str], optional: &[&str]) -> R<&'a 
     }
     Ok(o)
 }
-fn kind_of(j: &J) -> R<&str> {
+pub fn kind_of(j: &J) -> R<&str> {
     j.get("kind").and_then(|k| k.as_str()).ok_or_else(|| format!("no kind in {j}"))
 }
-fn name_of(j: &J) -> R<String> {
+pub fn name_of(j: &J) -> R<String> {
     let o = obj(j, "Name", &["value"], &[])?;
     o["value"].as_str().map(|s| s.to_string()).ok_or_else(|| "Name.value is not a string".to_string())
 }
-fn arr<'a>(j: &'a J, what: &str) -> R<&'a Vec<J>> {
+pub fn arr<'a>(j: &'a J, what: &str) -> R<&'a Vec<J>> {
     j.as_array().ok_or_else(|| format!("{what}: not an array"))
 }
-fn str_of(j: &J, what: &str) -> R<String> {
+pub fn str_of(j: &J, what: &str) -> R<String> {
     j.as_str().map(|s| s.to_string()).ok_or_else(|| format!("{what}: not a string: {j}"))
 }
-fn value_from(j: &J) -> R<MValue> {
+pub fn value_from(j: &J) -> R<MValue> {
     Ok(match kind_of(j)? {
         "Variable" => MValue::Var(name_of(&obj(j, "Variable", &["name"], &[])?["name"])?),
         "IntValue" => MValue::Int(str_of(&obj(j, "IntValue", &["value"], &[])?["value"], "IntValue.value")?),
@@ -225,7 +225,7 @@ fn value_from(j: &J) -> R<MValue> {
         k => return Err(format!("unknown value kind {k}")),
     })
 }
-fn type_from(j: &J) -> R<MType> {
+pub fn type_from(j: &J) -> R<MType> {
     Ok(match kind_of(j)? {
         "NamedType" => MType::Named(name_of(&obj(j, "NamedType", &["name"], &[])?["name"])?),
         "ListType" => MType::List(Box::new(type_from(&obj(j, "ListType", &["type"], &[])?["type"])?)),
@@ -239,7 +239,7 @@ fn type_from(j: &J) -> R<MType> {
         k => return Err(format!("unknown type kind {k}")),
     })
 }
-fn args_from(j: &J) -> R<Vec<(String, MValue)>> {
+pub fn args_from(j: &J) -> R<Vec<(String, MValue)>> {
     arr(j, "arguments")?
         .iter()
         .map(|a| {
@@ -248,7 +248,7 @@ fn args_from(j: &J) -> R<Vec<(String, MValue)>> {
         })
         .collect()
 }
-fn dirs_from(j: &J) -> R<Vec<MDir>> {
+pub fn dirs_from(j: &J) -> R<Vec<MDir>> {
     arr(j, "directives")?
         .iter()
         .map(|d| {
@@ -257,11 +257,11 @@ fn dirs_from(j: &J) -> R<Vec<MDir>> {
         })
         .collect()
 }
-fn selset_from(j: &J) -> R<Vec<MSel>> {
+pub fn selset_from(j: &J) -> R<Vec<MSel>> {
     let o = obj(j, "SelectionSet", &["selections"], &[])?;
     arr(&o["selections"], "selections")?.iter().map(sel_from).collect()
 }
-fn sel_from(j: &J) -> R<MSel> {
+pub fn sel_from(j: &J) -> R<MSel> {
     Ok(match kind_of(j)? {
         "Field" => {
             let o = obj(j, "Field", &["name"], &["alias", "arguments", "directives", "selectionSet"])?;
@@ -291,7 +291,7 @@ fn sel_from(j: &J) -> R<MSel> {
         k => return Err(format!("unknown selection kind {k}")),
     })
 }
-fn def_from(j: &J) -> R<MDef> {
+pub fn def_from(j: &J) -> R<MDef> {
     Ok(match kind_of(j)? {
         "OperationDefinition" => {
             let o = obj(j, "OperationDefinition", &["operation", "selectionSet"], &["name", "variableDefinitions", "directives"])?;
@@ -337,13 +337,13 @@ fn def_from(j: &J) -> R<MDef> {
         k => return Err(format!("unknown definition kind {k}")),
     })
 }
-fn doc_from(j: &J) -> R<Vec<MDef>> {
+pub fn doc_from(j: &J) -> R<Vec<MDef>> {
     let o = obj(j, "Document", &["definitions"], &[])?;
     arr(&o["definitions"], "definitions")?.iter().map(def_from).collect()
 }
 
 // ------------------------------------------------------------------------------------------------ model -> GraphQL text (for reports only)
-fn show_value(v: &MValue) -> String {
+pub fn show_value(v: &MValue) -> String {
     match v {
         MValue::Var(n) => format!("${n}"),
         MValue::Bool(b) => b.to_string(),
@@ -354,23 +354,23 @@ fn show_value(v: &MValue) -> String {
         MValue::Obj(f) => format!("{{{}}}", f.iter().map(|(k, v)| format!("{k}: {}", show_value(v))).collect::<Vec<_>>().join(", ")),
     }
 }
-fn show_type(t: &MType) -> String {
+pub fn show_type(t: &MType) -> String {
     match t {
         MType::Named(n) => n.clone(),
         MType::List(i) => format!("[{}]", show_type(i)),
         MType::NonNull(i) => format!("{}!", show_type(i)),
     }
 }
-fn show_args(a: &[(String, MValue)]) -> String {
+pub fn show_args(a: &[(String, MValue)]) -> String {
     if a.is_empty() { String::new() } else { format!("({})", a.iter().map(|(k, v)| format!("{k}: {}", show_value(v))).collect::<Vec<_>>().join(", ")) }
 }
-fn show_dirs(d: &[MDir]) -> String {
+pub fn show_dirs(d: &[MDir]) -> String {
     d.iter().map(|d| format!(" @{}{}", d.name, show_args(&d.args))).collect()
 }
-fn show_sels(s: &[MSel]) -> String {
+pub fn show_sels(s: &[MSel]) -> String {
     format!("{{ {} }}", s.iter().map(show_sel).collect::<Vec<_>>().join(" "))
 }
-fn show_sel(s: &MSel) -> String {
+pub fn show_sel(s: &MSel) -> String {
     match s {
         MSel::Field { alias, name, args, dirs, sel } => format!(
             "{}{name}{}{}{}",
@@ -383,7 +383,7 @@ fn show_sel(s: &MSel) -> String {
         MSel::Inline { cond, dirs, sel } => format!("...{}{} {}", cond.as_ref().map(|c| format!(" on {c}")).unwrap_or_default(), show_dirs(dirs), show_sels(sel)),
     }
 }
-fn show_def(d: &MDef) -> String {
+pub fn show_def(d: &MDef) -> String {
     match d {
         MDef::Op { ty, name, vars, dirs, sel } => format!(
             "{ty}{}{}{} {}",
@@ -407,7 +407,7 @@ fn show_def(d: &MDef) -> String {
 }
 
 // ------------------------------------------------------------------------------------------------ structural diff (failure signatures)
-fn mj_value(v: &MValue) -> J {
+pub fn mj_value(v: &MValue) -> J {
     match v {
         MValue::Var(n) => serde_json::json!({"Variable": n}),
         MValue::Bool(b) => serde_json::json!({"BooleanValue": b}),
@@ -420,23 +420,23 @@ fn mj_value(v: &MValue) -> J {
         MValue::Obj(f) => serde_json::json!({"ObjectValue": f.iter().map(|(k, v)| serde_json::json!({"name": k, "value": mj_value(v)})).collect::<Vec<_>>()}),
     }
 }
-fn mj_args(a: &[(String, MValue)]) -> J {
+pub fn mj_args(a: &[(String, MValue)]) -> J {
     J::Array(a.iter().map(|(k, v)| serde_json::json!({"name": k, "value": mj_value(v)})).collect())
 }
-fn mj_dirs(d: &[MDir]) -> J {
+pub fn mj_dirs(d: &[MDir]) -> J {
     J::Array(d.iter().map(|d| serde_json::json!({"name": d.name, "arguments": mj_args(&d.args)})).collect())
 }
-fn mj_sels(x: &[MSel]) -> J {
+pub fn mj_sels(x: &[MSel]) -> J {
     J::Array(x.iter().map(mj_sel).collect())
 }
-fn mj_sel(x: &MSel) -> J {
+pub fn mj_sel(x: &MSel) -> J {
     match x {
         MSel::Field { alias, name, args, dirs, sel } => serde_json::json!({"Field": {"alias": alias, "name": name, "arguments": mj_args(args), "directives": mj_dirs(dirs), "selectionSet": sel.as_ref().map(|s| mj_sels(s))}}),
         MSel::Spread { name, dirs } => serde_json::json!({"FragmentSpread": {"name": name, "directives": mj_dirs(dirs)}}),
         MSel::Inline { cond, dirs, sel } => serde_json::json!({"InlineFragment": {"typeCondition": cond, "directives": mj_dirs(dirs), "selectionSet": mj_sels(sel)}}),
     }
 }
-fn mj_def(d: &MDef) -> J {
+pub fn mj_def(d: &MDef) -> J {
     match d {
         MDef::Op { ty, name, vars, dirs, sel } => serde_json::json!({"OperationDefinition": {"operation": ty, "name": name,
             "variableDefinitions": vars.iter().map(|v| serde_json::json!({"variable": v.name, "type": show_type(&v.ty), "defaultValue": v.default.as_ref().map(mj_value), "directives": mj_dirs(&v.dirs)})).collect::<Vec<_>>(),
@@ -445,7 +445,7 @@ fn mj_def(d: &MDef) -> J {
     }
 }
 /// path (array indices erased) of the first place where the two trees differ
-fn first_diff(a: &J, b: &J) -> Option<String> {
+pub fn first_diff(a: &J, b: &J) -> Option<String> {
     match (a, b) {
         (J::Object(x), J::Object(y)) => {
             for (k, v) in x {
@@ -481,7 +481,7 @@ fn first_diff(a: &J, b: &J) -> Option<String> {
 }
 
 // ------------------------------------------------------------------------------------------------ oracle
-fn spreads_in(s: &[MSel], out: &mut Vec<String>) {
+pub fn spreads_in(s: &[MSel], out: &mut Vec<String>) {
     for x in s {
         match x {
             MSel::Field { sel: Some(s), .. } => spreads_in(s, out),
@@ -491,14 +491,14 @@ fn spreads_in(s: &[MSel], out: &mut Vec<String>) {
         }
     }
 }
-fn sel_of(d: &MDef) -> &[MSel] {
+pub fn sel_of(d: &MDef) -> &[MSel] {
     match d {
         MDef::Op { sel, .. } | MDef::Frag { sel, .. } => sel,
     }
 }
 /// names of the fragments transitively spread from `start` (excluding `start` itself unless it is reached again - a
 /// definition is never listed twice, and the definition itself comes first)
-fn closure(start: &MDef, frags: &BTreeMap<String, MDef>) -> BTreeSet<String> {
+pub fn closure(start: &MDef, frags: &BTreeMap<String, MDef>) -> BTreeSet<String> {
     let mut seen = BTreeSet::new();
     let mut todo = vec![];
     spreads_in(sel_of(start), &mut todo);
@@ -517,17 +517,17 @@ fn closure(start: &MDef, frags: &BTreeMap<String, MDef>) -> BTreeSet<String> {
     seen
 }
 
-struct Failure {
-    signature: String,
-    family: &'static str,
-    index: usize,
-    graphql: String,
-    definition: String,
-    why: String,
-    got: String,
+pub struct Failure {
+    pub signature: String,
+    pub family: &'static str,
+    pub index: usize,
+    pub graphql: String,
+    pub definition: String,
+    pub why: String,
+    pub got: String,
 }
 
-fn var_name_of(d: &MDef, names: &mut BTreeMap<String, usize>) -> String {
+pub fn var_name_of(d: &MDef, names: &mut BTreeMap<String, usize>) -> String {
     let _ = names;
     match d {
         MDef::Op { name: Some(n), ty, .. } => format!("{n}{}", capitalize(ty)),
@@ -535,7 +535,7 @@ fn var_name_of(d: &MDef, names: &mut BTreeMap<String, usize>) -> String {
         MDef::Frag { name, .. } => name.clone(),
     }
 }
-fn capitalize(s: &str) -> String {
+pub fn capitalize(s: &str) -> String {
     let mut c = s.chars();
     match c.next() {
         Some(f) => f.to_uppercase().collect::<String>() + c.as_str(),
@@ -544,7 +544,7 @@ fn capitalize(s: &str) -> String {
 }
 
 /// run the real printer on the document and compare every emitted runtime document with the oracle
-fn check_doc(family: &'static str, index: usize, defs: &[MDef], failures: &mut Vec<Failure>) {
+pub fn check_doc(family: &'static str, index: usize, defs: &[MDef], failures: &mut Vec<Failure>) {
     let doc = OperationDocument { position: pos(), definitions: defs.iter().map(ast_def).collect() };
     let mut out = String::new();
     {
@@ -635,10 +635,10 @@ fn check_doc(family: &'static str, index: usize, defs: &[MDef], failures: &mut V
 }
 
 // ------------------------------------------------------------------------------------------------ enumeration
-fn s(x: &str) -> String {
+pub fn s(x: &str) -> String {
     x.to_string()
 }
-fn atoms() -> Vec<MValue> {
+pub fn atoms() -> Vec<MValue> {
     vec![
         MValue::Var(s("v")),
         MValue::Int(s("0")),
@@ -655,7 +655,7 @@ fn atoms() -> Vec<MValue> {
         MValue::Enum(s("RED")),
     ]
 }
-fn values(thorough: bool) -> Vec<MValue> {
+pub fn values(thorough: bool) -> Vec<MValue> {
     let a = atoms();
     let mut v = a.clone();
     v.push(MValue::List(vec![]));
@@ -678,7 +678,7 @@ fn values(thorough: bool) -> Vec<MValue> {
     }
     v
 }
-fn types() -> Vec<MType> {
+pub fn types() -> Vec<MType> {
     let n = |x: &str| MType::Named(s(x));
     vec![
         n("Int"),
@@ -689,7 +689,7 @@ fn types() -> Vec<MType> {
         MType::List(Box::new(MType::NonNull(Box::new(MType::List(Box::new(n("U"))))))),
     ]
 }
-fn dir_sets() -> Vec<Vec<MDir>> {
+pub fn dir_sets() -> Vec<Vec<MDir>> {
     vec![
         vec![],
         vec![MDir { name: s("a"), args: vec![] }],
@@ -697,10 +697,10 @@ fn dir_sets() -> Vec<Vec<MDir>> {
         vec![MDir { name: s("a"), args: vec![] }, MDir { name: s("b"), args: vec![(s("y"), MValue::Int(s("1"))), (s("z"), MValue::Str(s("s")))] }],
     ]
 }
-fn field(name: &str) -> MSel {
+pub fn field(name: &str) -> MSel {
     MSel::Field { alias: None, name: s(name), args: vec![], dirs: vec![], sel: None }
 }
-fn sel_alternatives() -> Vec<MSel> {
+pub fn sel_alternatives() -> Vec<MSel> {
     let d = dir_sets();
     vec![
         field("a"),
@@ -717,14 +717,14 @@ fn sel_alternatives() -> Vec<MSel> {
         MSel::Inline { cond: Some(s("U")), dirs: d[3].clone(), sel: vec![field("n"), field("o")] },
     ]
 }
-fn frag(name: &str, sel: Vec<MSel>) -> MDef {
+pub fn frag(name: &str, sel: Vec<MSel>) -> MDef {
     MDef::Frag { name: s(name), cond: s("T"), dirs: vec![], sel }
 }
-fn query(name: Option<&str>, sel: Vec<MSel>) -> MDef {
+pub fn query(name: Option<&str>, sel: Vec<MSel>) -> MDef {
     MDef::Op { ty: "query", name: name.map(s), vars: vec![], dirs: vec![], sel }
 }
 
-fn enumerate(thorough: bool, mut f: impl FnMut(&'static str, Vec<MDef>)) {
+pub fn enumerate(thorough: bool, mut f: impl FnMut(&'static str, Vec<MDef>)) {
     let f1 = frag("F1", vec![field("x")]);
     let f2 = frag("F2", vec![field("y")]);
     // family values: every value in every value position
@@ -851,7 +851,9 @@ fn enumerate(thorough: bool, mut f: impl FnMut(&'static str, Vec<MDef>)) {
     // (documents are accepted by `check` first); not generated.
 }
 
-fn main() {
+
+/// driver shared by the bounded binaries: enumerate, check, report one JSON line
+pub fn run_main(check: impl Fn(&'static str, usize, &[MDef], &mut Vec<Failure>), extra: impl FnOnce(bool, &mut dyn FnMut(&'static str, String, Vec<Failure>))) {
     let args: Vec<String> = std::env::args().collect();
     let thorough = args.get(1).map(|a| a == "thorough").unwrap_or(false);
     let only: Option<usize> = args.iter().position(|a| a == "--one").and_then(|i| args.get(i + 1)).and_then(|x| x.parse().ok());
@@ -861,36 +863,57 @@ fn main() {
     let mut per_family: BTreeMap<&'static str, usize> = BTreeMap::new();
     let mut samples: Vec<String> = vec![];
     let mut index = 0usize;
-    enumerate(thorough, |family, defs| {
-        let i = index;
-        index += 1;
-        if let Some(o) = only {
-            if o != i {
-                return;
+    std::panic::set_hook(Box::new(|_| {}));
+    {
+        let mut record = |family: &'static str, text: String, fs: Vec<Failure>, evaluations: &mut usize, per_family: &mut BTreeMap<&'static str, usize>, samples: &mut Vec<String>, distinct: &mut BTreeSet<String>, failures: &mut Vec<Failure>, i: usize| {
+            *evaluations += 1;
+            *per_family.entry(family).or_default() += 1;
+            if per_family[family] == 2 || (per_family[family] % 997 == 0 && samples.len() < 12) {
+                samples.push(format!("[{family} #{i}] {text}"));
             }
-        }
-        evaluations += 1;
-        *per_family.entry(family).or_default() += 1;
-        let text = defs.iter().map(show_def).collect::<Vec<_>>().join("\n");
-        if per_family[family] == 2 || (per_family[family] % 997 == 0 && samples.len() < 12) {
-            samples.push(format!("[{family} #{i}] {text}"));
-        }
-        distinct.insert(text);
-        let r = std::panic::catch_unwind(std::panic::AssertUnwindSafe(|| {
-            let mut fs = vec![];
-            check_doc(family, i, &defs, &mut fs);
-            fs
-        }));
-        match r {
-            Ok(fs) => failures.extend(fs),
-            Err(_) => failures.push(Failure { signature: "the printer panicked".into(), family, index: i, graphql: defs.iter().map(show_def).collect::<Vec<_>>().join("\n"), definition: "(document)".into(), why: "the printer panicked".into(), got: String::new() }),
-        }
-    });
+            distinct.insert(text);
+            failures.extend(fs);
+        };
+        enumerate(thorough, |family, defs| {
+            let i = index;
+            index += 1;
+            if let Some(o) = only {
+                if o != i {
+                    return;
+                }
+            }
+            let text = defs.iter().map(show_def).collect::<Vec<_>>().join("\n");
+            let r = std::panic::catch_unwind(std::panic::AssertUnwindSafe(|| {
+                let mut fs = vec![];
+                check(family, i, &defs, &mut fs);
+                fs
+            }));
+            let fs = match r {
+                Ok(fs) => fs,
+                Err(_) => vec![Failure { signature: "the code under test panicked".into(), family, index: i, graphql: text.clone(), definition: "(document)".into(), why: "the code under test panicked".into(), got: String::new() }],
+            };
+            record(family, text, fs, &mut evaluations, &mut per_family, &mut samples, &mut distinct, &mut failures, i);
+        });
+        let mut extra_index = 1_000_000usize;
+        let mut sink = |family: &'static str, text: String, mut fs: Vec<Failure>| {
+            let i = extra_index;
+            extra_index += 1;
+            if let Some(o) = only {
+                if o != i {
+                    return;
+                }
+            }
+            for f in fs.iter_mut() {
+                f.index = i;
+            }
+            record(family, text, fs, &mut evaluations, &mut per_family, &mut samples, &mut distinct, &mut failures, i);
+        };
+        extra(thorough, &mut sink);
+    }
     let mut signatures: BTreeMap<String, usize> = BTreeMap::new();
     for f in &failures {
         *signatures.entry(f.signature.clone()).or_default() += 1;
     }
-    // the first two failing inputs of every signature
     let mut seen: BTreeMap<String, usize> = BTreeMap::new();
     let shown: Vec<J> = failures
         .iter()
